@@ -364,35 +364,63 @@ def main(tier):
         root = Node('bin\\config.bin', None)
         g = CfgGen(rng, avoid)
         texts = []
+        stages = []     # per load: (paths, expected) asked right after it - the model as it stands at that moment
+        asked = []
+
+        def has_delete(node):
+            return any(v == ('deleted',) for v in node.own.values())
+
+        def stage():
+            # queries between the loads: half of them repeat paths asked after an earlier load (an answer remembered from before the
+            # load must not survive it), the rest is drawn from what exists now
+            ps = all_paths(root)
+            rng.shuffle(ps)
+            again = list(asked)
+            rng.shuffle(again)
+            pick = again[:12 if tier == 'quick' else 40] + [p_ for p_ in ps if p_ not in again][:12 if tier == 'quick' else 40]
+            for p_ in pick:
+                if p_ not in asked:
+                    asked.append(p_)
+            stages.append((pick, [expected(root, p_, has_delete) for p_ in pick]))
+
         for _ in range(rng.randint(1, 4)):
             items_ast = [it for it in g.body_root(root) ]
             if not items_ast:
                 continue
             texts.append('\n'.join(emit(items_ast)) + '\n')
+            stage()
         if not texts:
             texts.append('class A { p = 1; };\n')
             load(root, [('class', 'A', None, [('field', 'p', 1)])])
+            stage()
         if len(texts) > 1:
             g.feats.add('several-loads')
-        # reload the model from scratch from the emitted structure? the model was updated while generating; that is the reference.
+            g.feats.add('queries-between-loads')
+        # the last stage is replaced by the full sample (it includes every path asked before)
         paths = all_paths(root)
         rng.shuffle(paths)
         paths = paths[:60 if tier == 'quick' else 200]
-
-        def has_delete(node):
-            return any(v == ('deleted',) for v in node.own.values())
-        exp = [expected(root, p, has_delete) for p in paths]
+        paths = paths + [p_ for p_ in asked if p_ not in paths][:30 if tier == 'quick' else 100]
+        stages[-1] = (paths, [expected(root, p_, has_delete) for p_ in paths])
         steps = [{'op': 'vm', 'vm': 0, 'ops': 'basic', 'max_runtime_ms': 0}]
-        for t in texts:
+        flat_paths, flat_exp = [], []
+        nq_total = 0
+        for t, (ps, ex) in zip(texts, stages):
             steps.append({'op': 'cfg', 'vm': 0, 'src': t, 'nopp': True})
-        q = []
-        for k, (p, e) in enumerate(zip(paths, exp)):
-            q.append(query_src(p, k))
-            if e[0] == 'class' and e[4] is not None:
-                q.append(own_src(p, 1000 + k, len(e[4])))
-        # the SQF parser is quadratic in the number of statements (C10): the queries go in chunks
-        for c0 in range(0, len(q), 40):
-            steps.append({'op': 'run', 'vm': 0, 'src': ';\n'.join(q[c0:c0 + 40]), 'nopp': True, 'nq': len(q)})
+            q = []
+            for p_, e in zip(ps, ex):
+                k = len(flat_paths)
+                flat_paths.append(p_)
+                flat_exp.append(e)
+                q.append(query_src(p_, k))
+                if e[0] == 'class' and e[4] is not None:
+                    q.append(own_src(p_, 100000 + k, len(e[4])))
+            nq_total += len(q)
+            # the SQF parser is quadratic in the number of statements (C10): the queries go in chunks
+            for c0 in range(0, len(q), 40):
+                steps.append({'op': 'run', 'vm': 0, 'src': ';\n'.join(q[c0:c0 + 40]), 'nopp': True})
+        steps[-1]['nq'] = nq_total
+        paths, exp = flat_paths, flat_exp
         cases.append((texts, paths, exp, g.feats))
         items.append(steps)
     results = core.run_items(runner, [], items, batch=10, base_cpu_ms=4000, item_cpu_ms=lambda it: 1500 + 10 * it[-1].get('nq', 60), counters=chk.counters, max_deaths=25)
@@ -408,12 +436,12 @@ def main(tier):
         if isinstance(r, core.Death):
             chk.death_is_violation(r, 'configuration #%d' % i, rep, sig_prefix='cfg')
             continue
-        bad_load = [st for st in r[1:1 + len(texts)] if not st.get('ok') or 'exc' in st]
+        bad_load = [st for stp, st in zip(items[i], r) if stp['op'] == 'cfg' and (not st.get('ok') or 'exc' in st)]
         if bad_load:
             errs = [l[2][:150] for st in bad_load for l in core.logs_of(st) if l[0] <= 1]
             chk.violation('load-failed|' + (errs[0].split('\t')[-1][:30] if errs else '?'), 'configuration #%d: a generated config text was rejected: %s' % (i, errs[:2] or bad_load[0].get('exc')), rep)
             continue
-        qsteps = r[1 + len(texts):]
+        qsteps = [st for stp, st in zip(items[i], r) if stp['op'] == 'run']
         errs = [l for st in qsteps for l in core.logs_of(st) if l[0] <= 1]
         obs = {}
         for v in [v_ for st in qsteps for v_ in core.diag_values(core.logs_of(st))]:
@@ -443,7 +471,7 @@ def main(tier):
                 if ok and o[4][1] is not True:
                     ok, what = False, 'isClass'
                 if ok and e[4] is not None:
-                    oo = obs.get(1000 + k)
+                    oo = obs.get(100000 + k)
                     if oo is None or int(oo[0]) != len(e[4]) or oo[1] != e[4]:
                         ok, what = False, 'count-select-own-entries'
                         o = oo
